@@ -156,8 +156,11 @@ def rule_ctx_store(prog, em):
         c = ins[0]
         ko = single_origin(trace_operand(b, c.args[1], through_calls=THROUGH))
         vo = single_origin(trace_operand(b, c.args[2], through_calls=set()))
-        if ko is not None and ko.kind == 'param' and not ko.proj and vo is not None and vo.kind == 'param' and not vo.proj:
-            obs.append(ok('CTXSTORE', key, 'insert(name parameter, value parameter) unchanged', c.where()))
+        skip = b.reachable_from(0, avoid={c.bb})
+        if c.bb != 0 and any(b.blocks[x]['term']['k'] == 'return' for x in skip):
+            obs.append(bad('CTXSTORE', key, '%s can return without inserting: a binding is silently not made for some values / names' % b.name, c.where(), body=b.name))
+        elif ko is not None and ko.kind == 'param' and not ko.proj and vo is not None and vo.kind == 'param' and not vo.proj:
+            obs.append(ok('CTXSTORE', key, 'insert(name parameter, value parameter) unchanged, on every path', c.where()))
         else:
             obs.append(bad('CTXSTORE', key, 'the context map entry is not (name parameter, value parameter) unchanged: %r / %r' % (ko, vo), c.where(), body=b.name))
     # wrappers between the evaluator and the direct writer: set_variable(name, value) -> set(name, Variable(value))
@@ -167,6 +170,9 @@ def rule_ctx_store(prog, em):
         key = 'CTXSTORE|wrap|%s' % b.name
         for c in calls:
             okk = True
+            skip = b.reachable_from(0, avoid={c.bb})
+            if c.bb != 0 and any(b.blocks[x]['term']['k'] == 'return' for x in skip):
+                okk = False
             for a in c.args[1:]:
                 o = single_origin(trace_operand(b, a, through_calls=THROUGH))
                 if o is None:
